@@ -246,8 +246,8 @@ fn adversarial(rng: &mut Rng, g: &mut DecGen, note: &mut String) -> PicSpec {
                     s.width = fw;
                     s.height = fh;
                 } else {
-                    s.width = (s.width.max(4) + 3) / 4 * 4;
-                    s.height = (s.height.max(4) + 3) / 4 * 4;
+                    s.width = ((s.width.clamp(4, 2044) as u32 + 3) / 4 * 4) as u16;
+                    s.height = ((s.height.clamp(4, 1016) as u32 + 3) / 4 * 4) as u16;
                 }
                 s.flavour = Flavour::StdPlus { umv_unlimited: umv == 2, layers: if g.cfg.scal { Some((rng.below(16) as u8, rng.below(16) as u8)) } else { None }, hdr: Some(hdr) };
                 s.ptype = if rng.chance(2, 3) { PType::P } else { PType::I };
@@ -272,7 +272,7 @@ fn adversarial(rng: &mut Rng, g: &mut DecGen, note: &mut String) -> PicSpec {
         }
         13 => {
             *note = "adversarial: flood (thousands of stuffing codewords / extension bytes at one position)".into();
-            let n = *rng.pick(&[300usize, 300, 3000, 3000, 20_000, 70_000]);
+            let n = *rng.pick(&[300usize, 300, 300, 300, 3000, 3000, 12_000, 40_000]);
             if rng.chance(3, 4) {
                 // macroblock stuffing: COD (non-intra pictures) + the 9-bit stuffing codeword, n times,
                 // in front of macroblock `at`
